@@ -125,7 +125,7 @@ func init() {
 		ID:    "C18",
 		Level: "exploration",
 		Rule: "call sequences over {Get,GetHandler,Set,SetHandler,Abort,Commit} x keys x handlers {ok,fail,abort-then-ok,abort-then-fail}: all sequences up to length 3 over keys {x,y} (enumerated), random sequences of length 4..8 over {x,y,z}, each on the real mem transaction and on the serial fallback over a plain store, checked against a map model " +
-			"(result count, order, ids, Get values, handler errors, no effect after abort, store usable and equal to the model afterwards); plus free-running groups of 2..3 concurrent transactions on the mem store under the race detector (pairs of keys written together must be read together). Non-trivial: the sequence contains at least one Set or an abort; distinct by sequence text",
+			"(result count, order, ids, Get values, handler errors, no effect after abort, store usable and equal to the model afterwards); plus free-running groups of 2..3 concurrent transactions on the mem store under the race detector (pairs of keys written together must be read together); directed programs: handlers that call their own transaction, handlers that make 0..5 nested calls and then fail (their error is their own operation's error), a Set from a record whose contents cannot be read on a committed key (the old record stays), Commit with a cancelled context. Non-trivial: the sequence contains at least one Set or an abort; distinct by sequence text",
 		Assumptions: []string{"Sets made before an Abort persist (neither implementation rolls back; the property does not ask for it)", "Commit of an aborted transaction may return either an error or the per-call results"},
 		NumCases:    func(env *core.Env) int { a, b, c := c18layout(env); return a + b + c },
 		Batch:       20,
